@@ -178,7 +178,7 @@ def r_one_start_closure(cx, ids=('R09.6', 'R04.5', 'R16.2')):
                     src = inner[2] if inner is not None else None
                     while src is not None and is_call(src, r'StateID::as_usize$'):
                         src = src[2][0]
-                    if src is None or cstr(inner[3]) != 'dfa.stride2':
+                    if src is None or cstr(inner[3]) not in ('dfa.stride2', 'old(dfa.stride2)'):
                         why_f = why_f or 'the stored target is not an NFA id shifted by the DFA\'s stride2: %s' % tstr(vc, 120)
                         continue
                     s = cstr(src)
